@@ -16,6 +16,30 @@ _HIST_ASSUME = [
 ]
 
 PROPS = {
+    "C15": {
+        "level": "exploration",
+        "jobs": [
+            {"run": "^TestC15Codecs", "checks": {"quick": 12000, "thorough": 150000}, "shards": {"quick": 1, "thorough": 8}},
+            {"run": "^TestC15Crypto", "checks": {"quick": 4000, "thorough": 40000}, "shards": {"quick": 1, "thorough": 8}},
+            {"run": "^TestC15JSONEndToEnd", "checks": {"quick": 1500, "thorough": 20000}, "shards": {"quick": 1, "thorough": 1}},
+        ],
+        "assumptions": [
+            "authorized-server locations are at most 255 bytes on the wire (one length byte) and at most 65535 bytes in the client map",
+            "floats are NaN-free as the property says; finite for the JSON endpoint",
+        ],
+    },
+    "C16": {
+        "level": "exploration",
+        "jobs": [
+            {"run": "^TestC16EnergyFile", "checks": {"quick": 8000, "thorough": 80000}, "shards": {"quick": 1, "thorough": 12}},
+            {"run": "^TestC16Wire", "checks": {"quick": 400, "thorough": 4000}, "shards": {"quick": 1, "thorough": 4}},
+        ],
+        "assumptions": [
+            "float to uint64 conversion of negative values is platform defined in Go; the two's complement rule is checked on this platform (amd64)",
+            "what counts as an unparseable reading is Go's float literal grammar (strconv.ParseFloat); timestamps beyond genesis+2^32-1 s are outside the value oracle",
+            "a row with extra columns is not well-formed: nothing is required of it, but a record taken from it must follow the same rules",
+        ],
+    },
     "C04": {
         "level": "exploration",
         "jobs": [
@@ -104,6 +128,16 @@ PROPS = {
 
 # Texts for MANIFEST.json.
 META = {
+    "C15": {
+        "technique": "property-based round-trip and differential testing of every codec against an independently written reference codec; bit-flip sensitivity under three verifiers",
+        "text": "Generated values (boundary sets and random bits) for every persisted or transmitted structure are encoded by the repository and by the reference codec and compared byte for byte, decoded back, offered at wrong lengths, concatenated into streams and truncated; signing bytes must carry the ASCII name prefix and differ across values and types; signing must be deterministic and any single-bit change of message, signature or key must fail glow.Verify, libsecp256k1 on independent Keccak, and a math/big verifier; JSON transport is checked in memory and end to end through a live server and its data file. Exploration only.",
+        "note": "The reference codec (harness/ref/codec.go) was written from the README rules and struct layouts. Location lengths bounded by the formats' length fields.",
+    },
+    "C16": {
+        "technique": "property-based testing with files constructed row by row from rows of known class, so the expected records are known by construction",
+        "text": "Generated calibration settings and CSV contents (header variants, literal forms, +-24 boundaries, negative/huge/scientific readings, unparseable values, unusable timestamps, quoted fields, and malformed rows) are parsed by a real client instance; well-formed files must give exactly the expected (slot, value) list computed in float64 in the documented order; malformed files must not crash and may only yield records that stem from rows by the same rules; calibration must be read as written or refused; a wire sub-check compares emitted datagrams with the new rows. Exploration only.",
+        "note": "Value oracle limited to finite readings whose scaled value fits 64 signed bits, as the property says.",
+    },
     "C04": {
         "technique": "stateful property-based testing with a restart injected after every prefix, oracle = reference model equality after each restart",
         "text": "Generated histories of registrations, authorizations (incl. conflicts and bans), reports (incl. banned slots), rotations and clock jumps; in half of the cases the server is restarted after every single action, otherwise at drawn points, with clocks that need zero, one or several catch-up rotations and with double restarts. After each restart the start must succeed and the full state must equal the model; the public surface and the data files are cross-checked. Exploration only.",
